@@ -4,7 +4,7 @@
 `Write` hands `writeChunk` pieces of at most `maxPDU` bytes; `writeChunk` cuts one piece of `len` bytes
 into `nFragment = (len−1)/f + 1` fragments (`f` = `maxFragmentSize`), numbered `nFragment−1 … 0`, each
 `min f remaining` bytes long. Hand-written model over `Nat`; `Props/C14.lean` proves it equal to the
-loop REGENERATED from the source (`Mieru.Gen.Wire.cut`).
+loop REGENERATED from the source (`Mieru.Gen.UdpWire.cut`).
 -/
 namespace Mieru.Chunk
 
